@@ -2,10 +2,14 @@ package rules
 
 import (
 	"fmt"
+	"go/ast"
+	"go/token"
+	"go/types"
 	"strings"
 
 	"golang.org/x/tools/go/ssa"
 
+	"verif/checker/internal/flow"
 	"verif/checker/internal/load"
 )
 
@@ -97,4 +101,257 @@ func (c *Ctx) r189() {
 		}
 	}
 	c.R.Floor(rule, "base64 encodings in DataURI", n, 1)
+}
+
+// R11.11: what the payload's minifier returned is what gets encoded.
+func (c *Ctx) r1111(rule string) {
+	c.R.Rule(rule, "in minify.DataURI the payload variable that is measured and encoded afterwards is assigned the result of the registry call (m.Bytes / m.Minify…) on every path on which that call is not known to have failed: from the call no path reaches a later read of the payload variable that avoids the assignment, other than through an outcome that tests the call's error. A length comparison in between (`only when the payload got smaller`) keeps the unminified payload whenever the minifier changes it without shrinking it — `data:text/css,a{color:#FFF}` keeps `#FFF`")
+	pk := c.pkg(rule, "")
+	if pk == nil {
+		return
+	}
+	info := pk.TypesInfo
+	fd := c.fn(rule, pk, "DataURI")
+	if fd == nil {
+		return
+	}
+	g := c.graph(pk, fd)
+	// the payload variable: second result of parse.DataURI
+	var payload types.Object
+	ast.Inspect(fd.Body, func(x ast.Node) bool {
+		as, ok := x.(*ast.AssignStmt)
+		if !ok || len(as.Rhs) != 1 || len(as.Lhs) < 2 {
+			return true
+		}
+		if ce, ok := as.Rhs[0].(*ast.CallExpr); ok && calleeName(info, ce) == load.ParseMod+".DataURI" {
+			if id, ok := as.Lhs[1].(*ast.Ident); ok {
+				payload = info.Defs[id]
+				if payload == nil {
+					payload = info.Uses[id]
+				}
+			}
+		}
+		return true
+	})
+	if payload == nil {
+		c.R.Unres(rule, "minify.DataURI/payload variable", c.pos(fd), "second result of parse.DataURI not bound to a variable")
+		return
+	}
+	n := 0
+	for _, y := range g.Nodes {
+		a := y.Ast()
+		if a == nil || y.Kind != flow.KStmt {
+			continue
+		}
+		var call *ast.CallExpr
+		for _, ce := range allCalls(a) {
+			nm := calleeName(info, ce)
+			if strings.HasPrefix(nm, load.Mod+".(M).") && len(ce.Args) >= 2 {
+				// the payload is an argument
+				for _, arg := range ce.Args {
+					if id, ok := ast.Unparen(arg).(*ast.Ident); ok && info.Uses[id] == payload {
+						call = ce
+					}
+				}
+			}
+		}
+		if call == nil {
+			continue
+		}
+		n++
+		// result variable and error variable of the call
+		var res, errv types.Object
+		if as, ok := y.Stmt.(*ast.AssignStmt); ok {
+			for _, l := range as.Lhs {
+				id, ok := l.(*ast.Ident)
+				if !ok || id.Name == "_" {
+					continue
+				}
+				o := info.Defs[id]
+				if o == nil {
+					o = info.Uses[id]
+				}
+				if o == nil {
+					continue
+				}
+				if isErrorType(o.Type()) {
+					errv = o
+				} else {
+					res = o
+				}
+			}
+		}
+		construct := fmt.Sprintf("minify.DataURI/result of the payload minifier#%d is the payload that is encoded", n)
+		if res == nil {
+			c.R.Bad(rule, construct, c.pos(call), "the result of the registry call is not bound to a variable")
+			continue
+		}
+		if res == payload {
+			c.R.OK(rule, construct, c.pos(call), "assigned to the payload variable by the call statement itself")
+			continue
+		}
+		assigns := func(q *flow.Node) bool {
+			as, ok := q.Stmt.(*ast.AssignStmt)
+			if !ok || q.Kind != flow.KStmt {
+				return false
+			}
+			for i, l := range as.Lhs {
+				if id, ok := l.(*ast.Ident); ok && info.Uses[id] == payload && i < len(as.Rhs) {
+					if rid, ok := ast.Unparen(as.Rhs[i]).(*ast.Ident); ok && info.Uses[rid] == res {
+						return true
+					}
+				}
+			}
+			return false
+		}
+		errOutcome := func(q *flow.Node) bool {
+			if (q.Kind != flow.KTrue && q.Kind != flow.KFalse) || q.Of == nil || q.Of.Kind != flow.KCond || errv == nil {
+				return false
+			}
+			be, ok := ast.Unparen(q.Of.Expr).(*ast.BinaryExpr)
+			if !ok {
+				return false
+			}
+			mentions := false
+			ast.Inspect(be, func(z ast.Node) bool {
+				if id, ok := z.(*ast.Ident); ok && info.Uses[id] == errv {
+					mentions = true
+				}
+				return true
+			})
+			if !mentions {
+				return false
+			}
+			// the outcome "err != nil"
+			return be.Op == token.NEQ && q.Kind == flow.KTrue || be.Op == token.EQL && q.Kind == flow.KFalse
+		}
+		readsPayload := func(q *flow.Node) bool {
+			if q == y || assigns(q) {
+				return false
+			}
+			a := q.Ast()
+			if a == nil {
+				return false
+			}
+			hit := false
+			ast.Inspect(a, func(z ast.Node) bool {
+				if id, ok := z.(*ast.Ident); ok && info.Uses[id] == payload {
+					hit = true
+				}
+				return true
+			})
+			// a comparison of the two lengths is the thing being judged, not a use
+			if q.Kind == flow.KCond {
+				return false
+			}
+			return hit
+		}
+		p := g.Path(flow.Search{From: []*flow.Node{y}, Goal: readsPayload, Avoid: func(q *flow.Node) bool { return assigns(q) || errOutcome(q) }})
+		c.R.Check(p == nil, rule, construct, c.pos(call), "assigned to the payload variable unless the call failed",
+			"the payload can be measured and encoded without having been replaced by what its minifier returned although the call succeeded: "+pathStr(c, g, p))
+	}
+	c.R.Floor(rule, "registry calls on the payload in DataURI", n, 1)
+}
+
+// R18.10: the count of the percent-encoded length stops early only when the choice is already made.
+func (c *Ctx) r1810() {
+	const rule = "R18.10"
+	c.R.Rule(rule, "minify.DataURI counts the length of the percent-encoded payload and leaves the loop early; afterwards base64 is chosen under a comparison of the two lengths. The count only grows, so leaving early is sound exactly when the comparison that selects base64 already holds: every break of the counting loop (the loop that adds to the variable compared afterwards) is taken under a condition identical, after normalisation, to the one that selects base64 after the loop. Leaving on a tie (`base64Len <= asciiLen` against `base64Len < asciiLen`) lets the selection see a tie where the full count is larger: `data:image/x-foo;base64,IyMjIyMjIw==` comes back two bytes longer, percent-encoded")
+	pk := c.pkg(rule, "")
+	if pk == nil {
+		return
+	}
+	info := pk.TypesInfo
+	fd := c.fn(rule, pk, "DataURI")
+	if fd == nil {
+		return
+	}
+	// the selection: the if whose body calls base64 Encode
+	var sel *ast.IfStmt
+	ast.Inspect(fd.Body, func(x ast.Node) bool {
+		ifs, ok := x.(*ast.IfStmt)
+		if !ok {
+			return true
+		}
+		for _, ce := range allCalls(ifs.Body) {
+			if strings.HasSuffix(calleeName(info, ce), ".Encode") && strings.Contains(calleeName(info, ce), "base64") {
+				sel = ifs
+			}
+		}
+		return true
+	})
+	if sel == nil {
+		c.R.Unres(rule, "minify.DataURI/selection of base64", c.pos(fd), "no if statement whose body encodes with base64")
+		return
+	}
+	norm := func(e ast.Expr) string {
+		be, ok := ast.Unparen(e).(*ast.BinaryExpr)
+		if !ok {
+			return nospace(str(e))
+		}
+		x, y := nospace(str(be.X)), nospace(str(be.Y))
+		switch be.Op {
+		case token.GTR:
+			return y + "<" + x
+		case token.GEQ:
+			return y + "<=" + x
+		}
+		return x + be.Op.String() + y
+	}
+	want := norm(sel.Cond)
+	n := 0
+	ast.Inspect(fd.Body, func(x ast.Node) bool {
+		var body *ast.BlockStmt
+		switch l := x.(type) {
+		case *ast.RangeStmt:
+			body = l.Body
+		case *ast.ForStmt:
+			body = l.Body
+		default:
+			return true
+		}
+		if x.End() > sel.Pos() {
+			return true
+		}
+		// a counting loop: adds to a variable that the selection compares
+		counts := false
+		ast.Inspect(body, func(z ast.Node) bool {
+			if as, ok := z.(*ast.AssignStmt); ok && as.Tok == token.ADD_ASSIGN && len(as.Lhs) == 1 && strings.Contains(want, nospace(str(as.Lhs[0]))) {
+				counts = true
+			}
+			return true
+		})
+		if !counts {
+			return true
+		}
+		ast.Inspect(body, func(z ast.Node) bool {
+			ifs, ok := z.(*ast.IfStmt)
+			if !ok {
+				return true
+			}
+			for _, st := range ifs.Body.List {
+				if br, ok := st.(*ast.BranchStmt); ok && br.Tok == token.BREAK {
+					n++
+					got := norm(ifs.Cond)
+					c.R.Check(got == want, rule, fmt.Sprintf("minify.DataURI/early exit#%d of the length count is taken when base64 is already chosen", n), c.pos(ifs), "`"+got+"`, the selecting comparison",
+						"the counting loop is left under `"+got+"`, the encoding is selected under `"+want+"`: where the two differ (a tie) the selection is made on an incomplete count and the longer encoding can be chosen")
+				}
+			}
+			return true
+		})
+		return true
+	})
+	c.R.Floor(rule, "early exits of the length count", n, 1)
+}
+
+// allCalls lists the call expressions below a node (function literals included).
+func allCalls(n ast.Node) []*ast.CallExpr {
+	var out []*ast.CallExpr
+	ast.Inspect(n, func(x ast.Node) bool {
+		if ce, ok := x.(*ast.CallExpr); ok {
+			out = append(out, ce)
+		}
+		return true
+	})
+	return out
 }
